@@ -191,7 +191,7 @@ func probeList() []probe {
 }
 
 // probes runs every applicable probe against block i (built by mk) on clones of both followers.
-func (r *runner) probes(valid []func() *Built, mk func() *Built, fols []*follower) {
+func (r *runner) probes(valid []func() *Built, mk func() *Built, fols []*follower, slot int) {
 	obs, _ := r.c.Extra["carve_out_probes"].(map[string]int)
 	if obs == nil {
 		obs = map[string]int{}
@@ -211,9 +211,17 @@ func (r *runner) probes(valid []func() *Built, mk func() *Built, fols []*followe
 			}
 			clone := r.rebuild(fo, valid)
 			pre := rawDigest(clone.mem)
+			mv, haveMV := false, representable(b)
+			if haveMV {
+				mv = modelAccept(r.or, network, slot, -1, b)
+			}
 			err, pan := store(clone.node, b)
 			be := backendName(fo.newState)
 			r.c.Count("probe/"+p.name+"/"+be, true)
+			if haveMV && pan == "" {
+				r.compareVerdict(mv, err == nil, p.name, fmt.Sprintf("probe %s on block %d [%s]", p.name, b.Block.Number, be), slot, b, err,
+					replayCase{Kind: "probe", Detail: p.name, NewState: fo.newState})
+			}
 			switch {
 			case pan != "":
 				obs[fmt.Sprintf("%s [%s] => PANIC %s", p.name, be, pan)]++
@@ -275,6 +283,7 @@ func (r *runner) crossingRegression() {
 		fol := newFollower(newState)
 		parent := &felt.Zero
 		var headRoot *felt.Felt
+		r.or.AskUntil("reset", "end")
 		for i := range seeds {
 			f, why := r.complete(seq.node, seeds[i], ctxs[i], parent)
 			if why != "" {
@@ -291,8 +300,12 @@ func (r *runner) crossingRegression() {
 				f.apply(b)
 				b.Update.OldRoot = headRoot
 				pre := rawDigest(fol.mem)
+				mv := modelAccept(r.or, network, i, -1, b)
 				err, pan := store(fol.node, b)
 				r.c.Count("crossing/"+be+"/header-root-as-old-root", true)
+				if pan == "" {
+					r.compareVerdict(mv, err == nil, "version-crossing:old-root=previous-header-root", "version-crossing regression ["+be+"]", i, b, err, rc)
+				}
 				if err == nil || pan != "" {
 					r.c.Violation("tamper-accepted:"+be+":version-crossing:old-root=previous-header-root",
 						fmt.Sprintf("block 1 (0.14.0) with OldRoot = root in block 0's header (0.13.6 rule) was stored or panicked: %s", pan), rc, false)
@@ -305,8 +318,15 @@ func (r *runner) crossingRegression() {
 			}
 			b, _ := genBlock(seeds[i], ctxs[i])
 			f.apply(b)
+			mv := modelAccept(r.or, network, i, i+1, b)
 			err, pan := store(fol.node, b)
 			r.c.Count(fmt.Sprintf("crossing/%s/%d", be, i), true)
+			if pan == "" {
+				r.compareVerdict(mv, err == nil, "version-crossing:valid", fmt.Sprintf("version-crossing regression block %d [%s]", i, be), i, b, err, rc)
+			}
+			if !mv {
+				return
+			}
 			if err != nil || pan != "" {
 				r.c.Violation("valid-rejected:"+be+":version-crossing-empty-class-trie",
 					fmt.Sprintf("block %d (%s) of a chain crossing 0.13.6 -> 0.14.0 with an empty class trie rejected: %v %s", i, ctxs[i].Version, err, pan), rc, false)
@@ -320,7 +340,7 @@ func (r *runner) crossingRegression() {
 
 // uncommittedProbes: for a post-0.7-format block, one tampering of every KIND of field that format does not
 // commit to, each on a clone: records whether juno stores the block (it should: nothing it checks changed).
-func (r *runner) uncommittedProbes(valid []func() *Built, mk func() *Built, fols []*follower, names []string) {
+func (r *runner) uncommittedProbes(valid []func() *Built, mk func() *Built, fols []*follower, names []string, slot int) {
 	if len(names) == 0 {
 		return
 	}
@@ -346,8 +366,16 @@ func (r *runner) uncommittedProbes(valid []func() *Built, mk func() *Built, fols
 				}
 			})
 			clone := r.rebuild(fo, valid)
+			mv, haveMV := false, representable(b)
+			if haveMV {
+				mv = modelAccept(r.or, network, slot, -1, b)
+			}
 			err, pan := store(clone.node, b)
 			r.c.Count("post07-uncommitted/"+k+"/"+backendName(fo.newState), true)
+			if haveMV && pan == "" {
+				r.compareVerdict(mv, err == nil, k, fmt.Sprintf("uncommitted-field tampering %s on block %d [%s]", name, b.Block.Number, backendName(fo.newState)), slot, b, err,
+					replayCase{Kind: "probe", Detail: name, NewState: fo.newState})
+			}
 			switch {
 			case pan != "":
 				obs[fmt.Sprintf("%s [%s] => PANIC %s", k, backendName(fo.newState), pan)]++
